@@ -94,6 +94,12 @@ CHECKS["C15"] = dict(
    text="For 10 secret shapes x required/optional x struct/exception (40 schemas), a holder reaches the annotated struct directly, through list, set, map value, unhashable map key, typedef, typedef of list, and has annotated fields itself; every leaf carries a unique marker. TLC checks on the model that no redact-classified leaf is emitted by any sink and no nolog leaf reaches zap, and that everything else is emitted. Each schema is generated by the real generator with zap and with --no-zap, built, and the decoded value's String(), Error() (exceptions) and zapcore JSON encoder output are searched for every marker in all its spellings (text, decimal byte list, base64); TLC requires redacted markers nowhere, nolog markers and labels absent from zap, and all other labels/markers present.",
    note="Trusted: TLC, the substring search of the lab driver, zap's JSON encoder. '%#v' bypasses String() and is outside the property. Quick tier samples 36 of the 80 (schema, option) labs.")
 
+CHECKS["C19"] = dict(
+   level="model_checking", ref="DESIGN.md section 5 (C19), Service.tla",
+   technique="three transcriptions of a function's Go types in TLA+ (core generator, plugin API description, plugin library formatting; Service.tla) compared by TLC on all type expressions up to a depth (MCService.tla); the same type expressions generated as service functions, the captured plugin request formatted with the real plugin library and compared with types parsed from the generated Go source; request structure and executed response helpers judged by C19Trace.tla",
+   text="TLC checks Format(ApiType(t, req)) = CoreType(t, req) for every type expression of depth <= 2 (3 thorough: 70k) over 24 leaf types (base types, enum, struct, typedefs of each incl. typedef of binary / list / enum list, cross-package struct / enum / typedef / exception), required and optional. Each reachable expression becomes the type of an optional parameter, a required parameter and the return value of a function with two exceptions (one cross-file) in services inheriting across two files; generation runs with and without --no-recurse. TLC compares, per item, the formatted description, the generated Args/Result field type, the WrapResponse/UnwrapResponse value types and the model's expectation; checks id resolution, acyclic parents, root services = services of the generated files, import path / directory consistency; and the lab executes every helper (value through the wire and back, each declared exception, an undeclared error, IsException).",
+   note="Trusted: TLC, go/parser based type rendering with import aliases normalised, reflection-built helper inputs.")
+
 NOT_YET = {}
 
 def main():
